@@ -164,6 +164,9 @@ impl<T: Qcow2IoOps> Qcow2Dev<T> {
                 // this slice may also hold new mappings whose refcounts
                 // aren't on disk yet
                 self.flush_refcount().await?;
+                // a concurrent flush may have written those refcounts
+                // without having synced them yet
+                self.call_fsync(0, usize::MAX, 0).await?;
                 self.flush_table(&*l2_table, 0, l2_table.byte_size())
                     .await?;
                 l2_handle.set_dirty(false);
